@@ -245,6 +245,7 @@ static void exec_one(void)
 	env_init();
 	sched_init();
 	sched_on_quiescence = quiescent;
+	sched_fault_eintr = mc_arg_int("eintr", 0);
 	sched_max_points = mc_arg_int("maxpoints", 3000);
 	nt = parse_list(mc_arg("transports", "0-3"), tl, 8);
 	n1 = parse_list(mc_arg("p1", "0-5"), p1l, 8);
